@@ -327,5 +327,9 @@ def run(chk: Check) -> None:
         if o["rule"].endswith(".T6"):
             o["rule"] = f"{chk.prop}.G4"
     chk.rules.pop("T6", None)
+    from .c03 import connecting_functions, rule_t2_t3
+    from .common import reuse
+
+    reuse(chk, rule_t2_t3, "G10", "the pin check of a hop has an effect: every verdict TOFUDatabase.verify can return is handled by the per-hop fetch - a failing one raises before anything is requested from the redirect target (= C03.T2/T3)", ("T2", "T3"), connecting_functions(chk))
     chk.trusted = ["CPython ast parser", "engine CFG"]
     chk.assumptions = ["a follower written in an idiom other than recursion-with-chain / for-range is reported as 'bound not extractable' (stated residual risk)"]
